@@ -608,7 +608,7 @@ PROPS = {
     },
     "C14": {
         "modules": ["Stun.Properties.C14"],
-        "theorems": ["Stun.C14.single_crit_linearizable", "Stun.C14.realtime_respected", "Stun.C14.seqExplains_run",
+        "theorems": ["Stun.C14.prefix_execution", "Stun.C14.fresh_concurrent_terminals", "Stun.C14.single_crit_linearizable", "Stun.C14.realtime_respected", "Stun.C14.seqExplains_run",
                      "Stun.C14.one_terminator_wins"],
         "streams": ["agent-conc", "agent-seq"],
         "tagsets": [["verif", "race"]],
